@@ -765,7 +765,17 @@ pub fn prefix_record(args: &[String]) {
 			if only.is_some_and(|o| o != *name) || excluded.iter().any(|x| x == name) {
 				continue;
 			}
-			let cfg = random_cfg(name, &mut rng, round % 3 != 0);
+			let mut cfg = random_cfg(name, &mut rng, round % 3 != 0);
+			// YV_PREFIX_WITNESS={"sets":"f=t;f=t","candle":[o,h,l,c,v],"k":K}: the recorded witness of a known finding
+			// (explicit data: independent of the stream generators)
+			let witness: Option<Value> = std::env::var("YV_PREFIX_WITNESS").ok().and_then(|t| serde_json::from_str(&t).ok());
+			if let Some(w) = &witness {
+				cfg = default_cfg(name);
+				for kv in w["sets"].as_str().unwrap_or("").split(';').filter(|x| !x.is_empty()) {
+					let (f, t) = kv.split_once('=').expect("field=text");
+					cfg.set(f, t.to_string()).expect("witness set");
+				}
+			}
 			let j = cfg.to_json();
 			// exempt by the property: indicators configured with a windowless (cumulative) ADI
 			if *name == "ChaikinOscillator" && j["window"].as_u64() == Some(0) {
@@ -785,7 +795,13 @@ pub fn prefix_record(args: &[String]) {
 				_ => {}
 			}
 			let kcfg = cfg_k(&j).max(4);
-			let k = *rng.pick(&[1u64, 2, 3, kcfg.saturating_sub(1).max(1), kcfg, kcfg + 1, 3 * kcfg]);
+			let mut k = *rng.pick(&[1u64, 2, 3, kcfg.saturating_sub(1).max(1), kcfg, kcfg + 1, 3 * kcfg]);
+			if let Some(w) = &witness {
+				let c = w["candle"].as_array().unwrap();
+				let f = |i: usize| c[i].as_f64().unwrap();
+				first = crate::methods::candle(f(0), f(1), f(2), f(3), f(4));
+				k = w["k"].as_u64().unwrap();
+			}
 			let (Ok(Ok(mut a)), Ok(Ok(mut b))) = (catch(|| cfg.init(&first)), catch(|| cfg.init(&first))) else { continue };
 			let p0 = (first.high as f64).abs().max(first.volume as f64).max(1e-300);
 			tw.ev(json!({"ev":"pre_new","subject":name,"params":j.to_string(),"class":"ind","n":kcfg,"k":k,"scale":fx(p0),"first":candle_fx(&first)}));
